@@ -83,7 +83,9 @@ _SIMPLE = {
     "Self": None,  # filled by caller
     "RateFn": obj("function"),
     "Callable": obj("function"),
-    "Path": STR,  # paths are modelled as their string (pyvc/lib_fs.py)
+    "Path": STR,
+    "ArrayLike": obj("ndarray"),
+    "Array": obj("ndarray"),  # paths are modelled as their string (pyvc/lib_fs.py)
 }
 
 _GENERIC_DICT = {"dict", "Mapping", "MutableMapping", "Dict"}
